@@ -3938,7 +3938,14 @@ size_t space_col_align(Chunk *first, Chunk *second)
       if (  first->GetOrigLine() == second->GetOrigLine()
          && second->GetOrigCol() > (first->GetOrigCol() + first->Len()))
       {
-         coldiff++;
+         // a token whose text was shortened ('[ ]' to '[]') was wider in the input:
+         // measure the gap behind it from its original end, as space_text() does
+         if (  first->Len() == 0
+            || first->GetOrigColEnd() <= first->GetOrigCol() + first->Len()
+            || second->GetOrigCol() > first->GetOrigColEnd())
+         {
+            coldiff++;
+         }
       }
       break;
 
